@@ -334,7 +334,10 @@ func (r *runner) conc(t []string) string {
 			<-start
 			for k := 0; k < rounds; k++ {
 				arrived[k].Add(1)
-				for spin := 0; arrived[k].Load() < nth && spin < 2000000; spin++ {
+				// wait (bounded) until every thread is at this round; the first round has
+				// to wait for the scheduler to start the other goroutines
+				// (pure spinning keeps this goroutine on its P, so the others must run on other Ps)
+				for dl := time.Now().Add(30 * time.Millisecond); arrived[k].Load() < nth && time.Now().Before(dl); {
 				}
 				if k >= len(ops) {
 					continue
